@@ -7,7 +7,8 @@
 //      ; v <itype> <namepat> <unit> <mname> <mver> <mschema> <vname> <vdesc> <vunit> <agg> <filter> <bounds>   (a registered view)
 //      ; i <itype> <l|d> <name> <unit> <desc>                                                     (an instrument + one measurement)
 //      real MeterProvider + explicit reader; every instrument records one value with attributes {a,b}; one Collect
-//                                          -> [stream|stream…] sorted, stream = n=<hex>,d=<hex>,u=<hex>,t=<itype>,a=<agg>,k=<keys>,v=<value 100+index of the instrument | ->
+//      the k-th `i` op records the value 100+k; a further `i` op with the name, type and value type of an earlier one is a second handle
+//                                          -> [stream|stream…] sorted, stream = n=<hex>,d=<hex>,u=<hex>,t=<itype>,a=<agg>,k=<keys>,v=<value of the point | ->
 //   sc <t|m|l> d <0|1> ; r <matcher> <arg> <0|1> ; … ; g <name> <ver> <schema> [<logger name> <k=v,…>] ; …
 //      real Tracer/Meter/LoggerProvider with a ScopeConfigurator built from the rules; every `g` requests a tracer /
 //      meter / logger, emits one span / measurement / log record through it
@@ -224,6 +225,15 @@ static std::string handle_mv(const std::vector<std::string> &t)
     }
     else
       return "bad-op";
+  }
+
+  // two handles for one observable instrument (same name, type, value type) are outside the C19 model (C17's subject)
+  {
+    std::set<std::string> seen;
+    for (auto &r : reqs)
+      if (r.type == sm::InstrumentType::kObservableCounter || r.type == sm::InstrumentType::kObservableGauge ||
+          r.type == sm::InstrumentType::kObservableUpDownCounter)
+        if (!seen.insert(r.name + '\n' + itype_name(r.type) + (r.is_double ? "d" : "l")).second) return "bad-op";
   }
 
   auto resource = res::Resource::Create({});
